@@ -31,15 +31,30 @@ def run_conc(cases, procs=8):
     out = {}
     for p, path, n in ps:
         so, se = p.communicate()
-        os.unlink(path)
         lines = so.decode().splitlines()
-        if p.returncode == 124:
-            out["__hang__"] = "a scheduled execution did not finish within the watchdog (%s)" % path
-        elif p.returncode != 0 or len(lines) != n:
-            raise C.ToolError("conc harness failed rc=%s: %s" % (p.returncode, se.decode()[-1500:]))
+        cases_in = [json.loads(l) for l in open(path)]
+        os.unlink(path)
         for l in lines:
-            r = json.loads(l)
+            try:
+                r = json.loads(l)
+            except ValueError:
+                continue
             out[r["id"]] = r
+        if p.returncode == 124:
+            out["__hang__"] = {"what": "an execution did not finish within the 600 s watchdog",
+                               "case": cases_in[min(len(lines), len(cases_in) - 1)]}
+        elif p.returncode != 0:
+            # the code under test took the harness process down (stack overflow / abort): that is data.
+            culprit = cases_in[min(len(lines), len(cases_in) - 1)]
+            out["__crash__"] = {"what": "harness process died with status %s: %s" % (p.returncode, se.decode()[-400:]),
+                                "case": culprit}
+            rest = [c for c in cases_in[len(lines) + 1:]]
+            if rest:
+                sub = run_conc(rest, procs=1)
+                for k, v in sub.items():
+                    out.setdefault(k, v)
+        elif len(lines) != n:
+            raise C.ToolError("conc harness returned %d results for %d cases" % (len(lines), n))
     return out
 
 
@@ -173,12 +188,11 @@ def check_c09(tier):
         info[cid] = (rep, rendered, False, "random")
         cases.append(case)
     res = run_conc(cases)
-    if "__hang__" in res:
-        V.violation({"what": res["__hang__"]}, "a scheduled concurrent analysis did not terminate")
+    for k in ("__hang__", "__crash__"):
+        if k in res:
+            V.violation(res.pop(k), "a scheduled concurrent analysis crashed the process or did not terminate")
     exact = 0
     for cid, r in res.items():
-        if cid == "__hang__":
-            continue
         rep, rendered, one, kind = info[cid]
         V.count()
         k = json.dumps(rep["sc"], sort_keys=True)
@@ -253,11 +267,10 @@ def check_c10(tier):
     for i, r in enumerate(C.run_harness(ref_cases)):
         refs[json.dumps(menu[i], sort_keys=True)] = proj_real(r["res"][-1], {"fa": [R.render_checked(UNI, "fa", menu[i])]})
     res = run_conc(cases)
-    if "__hang__" in res:
-        V.violation({"what": res["__hang__"]}, "scan/editor interleaving did not terminate")
+    for k in ("__hang__", "__crash__"):
+        if k in res:
+            V.violation(res.pop(k), "scan/editor interleaving crashed the process or did not terminate")
     for cid, r in res.items():
-        if cid == "__hang__":
-            continue
         rep, rendered, kind, jl = info[cid]
         V.count()
         V.nontriv((json.dumps(rep["sc"], sort_keys=True), tuple(r["granted"])))
@@ -303,3 +316,242 @@ def check_c10(tier):
              "RestoreAfterChange; real: simulated behaviours and both coarse orders replayed on real threads under the "
              "scheduler, then every menu text sent as one further change; final state compared with the single analysis",
         assumptions=["the scan's visit is the verif_analyze_file_fresh hook (the function scanner.rs:186 calls)"])
+
+
+# ------------------------------------------------------------------------------------------- C12
+
+ALL_QUERY_OPS = ["goto", "goto_or_def", "name_at", "refs_at", "available", "resolve_for_file", "imported",
+                 "is_imported", "cycles", "cycles_in_file", "scope_mismatch", "undeclared", "completion_ctx",
+                 "param_insert", "containing_fn", "unused", "refs", "def_at_line", "refs_by_name", "snapshot"]
+
+
+def query_ops_for(paths_texts, names):
+    """every public library entry point, at positions that exist in the texts"""
+    ops = []
+    for path, text in paths_texts.items():
+        lines = text.split("\n")
+        for ln, line in enumerate(lines):
+            for nm in names:
+                col = line.find(nm + ")") if (nm + ")") in line else line.find(nm + ",")
+                if col >= 0 and ("def " in line):
+                    for op in ("goto", "goto_or_def", "name_at", "refs_at", "completion_ctx"):
+                        ops.append({"op": op, "path": path, "line": ln, "col": col})
+            if line.startswith("def ") or line.startswith("    def "):
+                col = line.index("def ") + 4
+                nm = line[col:].split("(")[0]
+                ops.append({"op": "refs_at", "path": path, "line": ln, "col": col})
+                ops.append({"op": "goto_or_def", "path": path, "line": ln, "col": col})
+                ops.append({"op": "refs", "path": path, "line1": ln + 1, "name": nm})
+                ops.append({"op": "def_at_line", "path": path, "line1": ln + 1, "name": nm})
+                ops.append({"op": "param_insert", "path": path, "line1": ln + 1})
+                ops.append({"op": "containing_fn", "path": path, "line1": ln + 2})
+                ops.append({"op": "completion_ctx", "path": path, "line": ln + 1, "col": 4})
+        for op in ("available", "imported", "cycles_in_file", "scope_mismatch", "undeclared"):
+            ops.append({"op": op, "path": path})
+        for nm in names:
+            ops.append({"op": "resolve_for_file", "path": path, "name": nm})
+            ops.append({"op": "is_imported", "path": path, "name": nm})
+    for nm in names:
+        ops.append({"op": "refs_by_name", "name": nm})
+    ops += [{"op": "cycles"}, {"op": "unused"}, {"op": "snapshot"}]
+    return ops
+
+
+def import_graph_cases():
+    """every import graph over three helper modules (incl. self loops, cycles, diamonds), star / plugins"""
+    import itertools
+    uni = R.Universe({"c": "/vws/G/conftest.py", "ha": "/vws/G/mod_a.py", "hb": "/vws/G/mod_b.py",
+                      "hc": "/vws/G/mod_c.py", "t": "/vws/G/test_t.py"})
+    mods = ["ha", "hb", "hc"]
+    out = []
+
+    def item(k, name="-", mod="-", deps=()):
+        return {"k": k, "name": name, "deps": list(deps), "scope": 0, "autouse": False, "mod": mod, "marks": [], "cmarks": [], "ind": []}
+
+    subsets = [s for r in range(4) for s in itertools.combinations(mods, r)]
+    for ea in subsets:
+        for eb in subsets:
+            for ec in subsets:
+                for kind in ("star", "plugins"):
+                    edges = {"ha": ea, "hb": eb, "hc": ec}
+                    files = {}
+                    for m in mods:
+                        its = [item("def", name="f" + m[1], deps=())]
+                        if kind == "star":
+                            its += [item("star", mod=x) for x in edges[m]]
+                        elif edges[m]:
+                            # pytest_plugins: one assignment listing all (the renderer emits one per item; last wins)
+                            its += [item("plugins", mod=edges[m][-1])]
+                        files[m] = {"present": True, "valid": True, "items": its}
+                    files["c"] = {"present": True, "valid": True, "items": [item("star", mod="ha")]}
+                    files["t"] = {"present": True, "valid": True, "items": [item("test", name="test_1", deps=("fa", "fb", "fc"))]}
+                    eff = dict(edges)
+                    if kind == "plugins":
+                        eff = {m: ((edges[m][-1],) if edges[m] else ()) for m in mods}
+                    out.append((uni, files, eff, kind))
+    return out
+
+
+def reachable(eff, start):
+    seen, todo = {start}, [start]
+    while todo:
+        x = todo.pop()
+        for y in eff.get(x, ()):
+            if y not in seen:
+                seen.add(y)
+                todo.append(y)
+    return seen
+
+
+def gen_locks_mc(templates):
+    def rec(s):
+        m, mode = s.split(":")
+        return '[map |-> "%s", mode |-> "%s"]' % (m, mode)
+    tps = []
+    for t in templates:
+        held = ", ".join(rec(h) for h in t["held"])
+        tps.append("[held |-> <<%s>>, req |-> %s]" % (held, rec(t["req"])))
+    body = "---- MODULE MC_Locks_gen ----\nEXTENDS Locks\nGenTemplates == <<\n  %s\n>>\n====\n" % ",\n  ".join(tps)
+    return body
+
+
+def check_c12(tier):
+    import layouts as L
+    V = C.Verdict("C12", tier, "model_checking")
+    C.build_harness()
+    # ---- (1) lock traces of every library entry point, natural placement and all-keys-in-one-shard
+    meta_l = L.load_cases("Layouts_chain.cfg")
+    cases, info = [], {}
+    rnd = random.Random(C.seed())
+    all_cases = list(C.tlc_cases(meta_l))
+    rnd.shuffle(all_cases)
+    sample = all_cases[:150 if tier == "quick" else 1500]
+    for case in sample:
+        ctx = L.CaseCtx(case)
+        texts = ctx.texts()
+        setup = ctx.setup_ops()
+        for one in (False, True):
+            cid = len(cases)
+            cases.append({"id": cid, "one_shard": one, "mode": "trace", "pre": [],
+                          "threads": [setup + query_ops_for(texts, ["n", "w", "x"]) +
+                                      [{"op": "close", "path": p} for p in list(texts)[:1]] +
+                                      [{"op": "analyze", "path": p, "text": t} for p, t in list(texts.items())[:2]] +
+                                      [{"op": "analyze", "path": p, "text": t, "fresh": True} for p, t in list(texts.items())[:1]] +
+                                      # a second round after the re-analysis (stale-cache branches of the memoised queries)
+                                      [q for q in query_ops_for(texts, ["n", "w", "x"]) if q["op"] in ("goto", "available", "imported", "cycles", "is_imported")]],
+                          "schedule": [], "post": []})
+            info[cid] = ("layout", case["shape"], one)
+    graphs = import_graph_cases()
+    if tier == "quick":
+        rnd.shuffle(graphs)
+        graphs = graphs[:300]
+    graph_info = {}
+    for uni, files, eff, kind in graphs:
+        rendered = {s: R.render_checked(uni, s, m) for s, m in files.items()}
+        texts = {uni.paths[s]: r.text for s, r in rendered.items()}
+        setup = [{"op": "analyze", "path": uni.paths[s], "text": rendered[s].text} for s in ("t", "c", "ha", "hb", "hc")]
+        for one in (False, True):
+            cid = len(cases)
+            cases.append({"id": cid, "one_shard": one, "mode": "trace", "pre": [],
+                          "threads": [setup + [{"op": "imported", "path": uni.paths["c"]}] +
+                                      query_ops_for(texts, ["fa", "fb", "fc"]) +
+                                      [{"op": "analyze", "path": uni.paths["t"], "text": rendered["t"].text},
+                                       {"op": "imported", "path": uni.paths["c"]}, {"op": "available", "path": uni.paths["t"]},
+                                       {"op": "imported", "path": uni.paths["hb"]}, {"op": "imported", "path": uni.paths["c"]}]],
+                          "schedule": [], "post": []})
+            info[cid] = ("imports", {"edges": eff, "kind": kind}, one)
+            graph_info[cid] = (eff, len(setup))
+    res = run_conc(cases)
+    for k in ("__hang__", "__crash__"):
+        if k in res:
+            V.violation(res.pop(k), "an operation crashed the process (stack overflow / abort) or did not terminate")
+    templates = {}
+    ops_seen = set()
+    for cid, r in res.items():
+        kind, shape, one = info[cid]
+        V.count()
+        V.nontriv((kind, json.dumps(shape, sort_keys=True), one))
+        for c in cases[cid]["threads"][0]:
+            ops_seen.add(c["op"])
+        panics = [x for x in r["threads"][0] if isinstance(x, dict) and "panic" in x]
+        if r["hazards"] or r["deadlock"] or panics:
+            V.violation({"universe": kind, "shape": shape, "one_shard": one, "hazards": r["hazards"][:5], "panics": panics[:3],
+                         "ops": [c for c in cases[cid]["threads"][0] if c["op"] != "analyze"][:40],
+                         "texts": [c.get("text") for c in cases[cid]["threads"][0] if c["op"] == "analyze"]},
+                        "lock re-entrancy that self-deadlocks for some key placement (or did in this one)")
+        for t in r["templates"]:
+            templates[json.dumps(t, sort_keys=True)] = t
+        if cid in graph_info:
+            eff, ns = graph_info[cid]
+            got = r["threads"][0][ns] if len(r["threads"][0]) > ns else None
+            want = sorted("f" + m[1] for m in reachable(eff, "ha"))
+            if got != want:
+                V.violation({"edges": eff, "imported": got, "expected": want, "kind": shape["kind"]},
+                            "fixtures re-exported through an import graph with cycles differ from the reachable modules' fixtures")
+    missing = [o for o in ALL_QUERY_OPS if o not in ops_seen and o not in ("snapshot",)]
+    if missing:
+        raise C.ToolError("C12 self-test: entry points never exercised: %s" % missing)
+    tlist = sorted(templates.values(), key=lambda t: json.dumps(t, sort_keys=True))
+    # ---- (2) TLC: the observed nesting templates under every schedule and placement
+    with open(os.path.join(C.SPEC, "MC_Locks_gen.tla"), "w") as fh:
+        fh.write(gen_locks_mc(tlist) if tlist else "---- MODULE MC_Locks_gen ----\nEXTENDS Locks\nGenTemplates == <<[held |-> <<>>, req |-> [map |-> \"definitions\", mode |-> \"R\"]]>>\n====\n")
+    threads = "{1, 2}" if tier == "quick" else "{1, 2, 3}"
+    with open(os.path.join(C.SPEC, "MC_Locks_gen.cfg"), "w") as fh:
+        fh.write("CONSTANTS\n  Templates <- GenTemplates\n  Threads = %s\n  Shards = {0, 1}\nSPECIFICATION Spec\nCHECK_DEADLOCK FALSE\nINVARIANTS\n  NoDeadlock\n" % threads)
+    meta = C.run_tlc("MC_Locks_gen", "MC_Locks_gen.cfg", workers=8, timeout=3600)
+    if not meta["ok"]:
+        if any("Invariant NoDeadlock is violated" in e for e in meta["errors"]):
+            V.violation({"templates": tlist, "tlc": meta["errors"]},
+                        "TLC: the observed lock nestings admit a deadlock under some schedule / key placement")
+        else:
+            raise C.ToolError("TLC on the generated lock templates failed: %s" % meta["errors"])
+    # ---- (3) termination of the recursive / iterative algorithms on every import graph
+    meta_iw = C.run_tlc("ImportWalk", "ImportWalk.cfg", workers=8, timeout=3600)
+    if not meta_iw["ok"]:
+        raise C.ToolError("TLC on ImportWalk failed: %s" % meta_iw["errors"])
+    # ---- (4) scheduled concurrent notification + requests on real threads: no deadlock, every op returns
+    sched_cases, sinfo = [], {}
+    for case in sample[:60 if tier == "quick" else 600]:
+        ctx = L.CaseCtx(case)
+        texts = ctx.texts()
+        setup = ctx.setup_ops()
+        q = query_ops_for(texts, ["n", "w", "x"])
+        first = list(texts.items())[0]
+        for one in (False, True):
+            cid = len(sched_cases)
+            sched_cases.append({"id": cid, "one_shard": one, "mode": "sched", "pre": setup,
+                                "yield_maps": [],
+                                "threads": [[{"op": "analyze", "path": first[0], "text": first[1]},
+                                             {"op": "analyze", "path": first[0], "text": first[1], "fresh": True}],
+                                            q[:80], list(reversed(q))[:80]],
+                                "schedule": [rnd.choice([1, 2, 3]) for _ in range(4000)], "post": []})
+            sinfo[cid] = (case["shape"], one)
+    sres = run_conc(sched_cases)
+    for k in ("__hang__", "__crash__"):
+        if k in sres:
+            V.violation(sres.pop(k), "concurrent notification and requests crashed the process or did not terminate")
+    for cid, r in sres.items():
+        V.count()
+        V.nontriv(("sched", json.dumps(sinfo[cid][0], sort_keys=True), sinfo[cid][1]))
+        panics = [p for p in r["panics"] if p] + [x for t in r["threads"] for x in t if isinstance(x, dict) and "panic" in x]
+        if r["deadlock"] or r["hazards"] or panics:
+            V.violation({"shape": sinfo[cid][0], "one_shard": sinfo[cid][1], "hazards": r["hazards"][:5],
+                         "panics": panics[:3], "granted": r["granted"][:200]},
+                        "deadlock / lock hazard / panic while a notification and requests run concurrently")
+    V.sample({"templates": tlist})
+    cov = {"states": meta["distinct"] + meta_iw["distinct"], "transitions": meta["transitions"] + meta_iw["transitions"],
+           "traces_validated_against_impl": len(res) + len(sres), "templates": tlist, "entry_points": sorted(ops_seen),
+           "exhaustive": True,
+           "tlc": [{"module": "Locks (generated templates)", "wall_s": meta["wall_s"]}, {"module": "ImportWalk", "wall_s": meta_iw["wall_s"]}]}
+    return V.finish(
+        coverage_extra=cov,
+        rule="(1) every public library entry point is run on sampled override-chain layouts and on every import graph "
+             "over three modules (self loops, 2-/3-cycles, diamonds; star imports and pytest_plugins) with the instrumented "
+             "DashMap tracing all shard locks, under natural placement AND all keys in one shard; a held-lock re-entrancy "
+             "involving a writer on the same map is a violation; (2) the observed nesting templates are checked by TLC "
+             "(Locks.tla, reader-preferring RwLock, all schedules and placements) for deadlock; (3) ImportWalk.tla: "
+             "termination (<>Done under WF) of the memoised import recursion and scanner fixpoint on all graphs; "
+             "(4) an analysis and two request streams run on real threads under seeded random schedules",
+        assumptions=["handlers of the binary crate are covered through the library entry points they call (code lens / inlay hint "
+                     "hold a definitions.iter / usages.get guard across calls: read-under-read templates)",
+                     "watchdog = 600 s per harness process"])
